@@ -481,6 +481,11 @@ CASES += [
                       "EvalError": [("failed_evaluate", exc_local_join_failed)]}),
     Case(LOCAL + "::LocalApp.clean_up", setup=setup_local(), libs=LIBS,
          ensures=[("post", ens_local_cleanup)]),
+    Case(LOCAL + "::LocalApp.cancel", setup=setup_local(), libs=LIBS,
+         raises={"AppStateError": allowed("RUNNING", "FINISHED")},
+         ensures=[("post", ens_cancel), ("single_bit", single_bit),
+                  ("child_killed_once", lambda I, env: env.vars["self"].attrs["_process"].attrs["_g_kills"] == 1)],
+         exc_ensures={"AppStateError": [("frame", frame_local)]}),
     Case(LOCAL + "::LocalApp.clean_up", "launch-failed (no process)", setup=setup_local(created_no_process=True),
          libs=LIBS, requires=[lambda I, env: state_is(env.vars["state0"], members(I)["CANCELLED"])],
          ensures=[("returns", lambda I, env: True)]),
